@@ -252,3 +252,44 @@ Definition w_outcome (r : sres unit * list nat * sworld) : outcome :=
      omen_saved := sw_om w;
      finished := match sw_saves w with _ :: _ :: _ => false | _ => true end |}.
 End SessionWorld.
+
+(* ====================================================================== *)
+(* The keyboard thread (keypress) as Session.v sees it: the events the main loop can
+   observe.  The world of the thread: the lines input() will return - each with whether
+   stderr still works while it is handled (a failing print ends the thread) - or an error
+   of input() (closed stdin, ...); the end of the list is end of file. *)
+Inductive kin :=
+| KLine (s : pstr) (stderr_ok : bool)
+| KErr.
+
+Record kworld := mkK {
+  kw_inputs : list kin;      (* what input() will still return *)
+  kw_stderr : bool;          (* stderr works (as of the line being handled) *)
+  kw_main_alive : bool;      (* threading.main_thread().is_alive() *)
+  kw_flag : bool             (* pcfg.should_exit *)
+}.
+
+Definition k_read_input (w : kworld) : sres pstr * kworld :=
+  match kw_inputs w with
+  | [] => (SExc EOFError, w)
+  | KErr :: r => (SExc OtherError, mkK r (kw_stderr w) (kw_main_alive w) (kw_flag w))
+  | KLine s ok :: r => (SOk s, mkK r ok (kw_main_alive w) (kw_flag w))
+  end.
+Definition k_main_thread_is_alive (w : kworld) : bool * kworld := (kw_main_alive w, w).
+(* print_status, print_help and every print(..., file=sys.stderr) of keypress *)
+Definition k_stderr (w : kworld) : sres unit * kworld := if kw_stderr w then (SOk tt, w) else (SExc OSError, w).
+Definition k_set_should_exit (w : kworld) : kworld := mkK (kw_inputs w) (kw_stderr w) (kw_main_alive w) true.
+
+(* the events of Session.v the thread produces: [ENTER] / other text = a status report,
+   'h' = help, 'q' = the quit flag and then the end of the thread; end of file, an error of
+   input(), a dead main thread and a failing print to stderr end the thread without a flag *)
+Fixpoint kp_trace (main_alive : bool) (ins : list kin) : list ev :=
+  match ins with
+  | [] => [EvThreadEnds]
+  | KErr :: _ => [EvThreadEnds]
+  | KLine s ok :: r =>
+      if negb main_alive then [EvThreadEnds]
+      else if negb ok then [EvThreadEnds]
+      else if str_eqb s [113%N] then [EvQuitFlag; EvThreadEnds]
+      else (if str_eqb s [104%N] then EvHelp else EvStatus) :: kp_trace main_alive r
+  end.
